@@ -14,8 +14,9 @@ CHECKS = {
             "twice), bfs rows are level-ordered, dfs subtrees contiguous, roots in order. Sampling with measured "
             "class coverage, not a proof.",
             "Trusts Python's os module to create the tree it was asked to create and ext4 on /tmp; sibling order "
-            "is don't-care; roots are disjoint; `/` as root not tested.",
-            "DESIGN.md 4 C01"),
+            "is don't-care; roots are disjoint; `/` and `~name` roots are searched inside a chroot jail, several file "
+            "systems below one root are tmpfs mounts in a private mount namespace (skipped where unshare is unavailable).",
+            "DESIGN.md 4 C01; later additions: DESIGN.md 12.8"),
     "C10": ("exploration",
             "property-based testing / grammar-based fuzzing (Hypothesis) of argument vectors with a validity-predicate "
             "oracle; closed sub-classes enumerated exhaustively",
@@ -26,7 +27,7 @@ CHECKS = {
             "sampled space; cannot prove totality.",
             "Hang = SIGXCPU after 10 CPU-seconds on a 15-entry tree; interactive mode gets EOF; FIFOs excluded; "
             "which well-formed-looking soups parse is not asserted.",
-            "DESIGN.md 4 C10"),
+            "DESIGN.md 4 C10; later additions: DESIGN.md 12.8"),
     "C15": ("exploration",
             "property-based testing (Hypothesis): generated expression ASTs, differential against an f64 reference "
             "evaluator plus metamorphic column-independence and WHERE-vs-own-value relations",
@@ -36,7 +37,7 @@ CHECKS = {
             "select exactly the entries whose own printed value satisfies it. Sampling, not proof.",
             "Reference evaluator is IEEE f64 in Python (math.fmod, math.pow), relative tolerance 1e-12; division by "
             "zero, |v| > 2^50 and `-(...)` are outside the generated domain.",
-            "DESIGN.md 4 C15"),
+            "DESIGN.md 4 C15; later additions: DESIGN.md 12.8"),
     "C02": ("exploration",
             "property-based testing (Hypothesis): generated attribute-rich trees x atomic conditions, differential "
             "against a reference predicate evaluated on lstat-observed attributes",
@@ -45,8 +46,9 @@ CHECKS = {
             "the set of returned paths must equal the set of entries for which the documented meaning holds - both "
             "over- and under-selection are reported with the (type, column, operator) in the signature.",
             "Python's os.lstat/re and the small glob/date references are trusted; TZ=UTC; undocumented combinations "
-            "(ordering on text/bool, negative or unit-less fractional literals) are not generated.",
-            "DESIGN.md 4 C02"),
+            "(ordering on booleans) are not generated; a column without a value satisfies only != and a literal that is "
+            "no number is status 2 (DESIGN.md 12.8).",
+            "DESIGN.md 4 C02; later additions: DESIGN.md 12.8"),
     "C03": ("exploration",
             "property-based testing (Hypothesis) with a metamorphic set-algebra oracle over fselect's own atom "
             "results; bounded-exhaustive enumeration of formula shapes",
@@ -56,7 +58,7 @@ CHECKS = {
             "formulas to depth 5 on generated trees; infix `not like`/`not between` complement laws.",
             "Atom semantics are taken from fselect itself (C02 checks them); complement relative to the unfiltered "
             "listing; only always-present columns.",
-            "DESIGN.md 4 C03"),
+            "DESIGN.md 4 C03; later additions: DESIGN.md 12.8"),
     "C05": ("exploration",
             "property-based testing (Hypothesis): generated trees with ties x key lists; permutation (multiset) "
             "round-trip against the unordered query and a typed pairwise sortedness invariant; the wall clock is a "
@@ -67,7 +69,7 @@ CHECKS = {
             "desc reversed per key. Both directions (nothing lost or invented, order correct) are checked.",
             "Key cells come from a separate unordered run of the same binary joined on path; ties unordered; "
             "negative/fractional keys and keys starting with a literal are outside the generated domain.",
-            "DESIGN.md 4 C05"),
+            "DESIGN.md 4 C05; later additions: DESIGN.md 12.8"),
     "C06": ("exploration",
             "property-based testing (Hypothesis) with per-pair exhaustive enumeration of N in 1..M+2; metamorphic "
             "oracle against the unlimited result of the same query",
@@ -76,7 +78,7 @@ CHECKS = {
             "the first N keys of the sorted unlimited result (ties at the cut may resolve either way); archives with "
             "members larger and smaller than every file, several roots, bfs/dfs, WHERE.",
             "The unlimited output of the same binary is the reference (its own correctness is C01/C02/C05/C19).",
-            "DESIGN.md 4 C06"),
+            "DESIGN.md 4 C06; later additions: DESIGN.md 12.8"),
     "C07": ("exploration",
             "property-based testing (Hypothesis): metamorphic (aggregate query vs. the same query without aggregates) "
             "plus an exact Fraction / float reference for the nine aggregate functions",
@@ -86,7 +88,7 @@ CHECKS = {
             "means and sums above 2^32.",
             "Empty-set MIN/MAX/AVG/variance and single-value sample variance are don't-care; Python Fraction/math "
             "are the trusted arithmetic.",
-            "DESIGN.md 4 C07"),
+            "DESIGN.md 4 C07; later additions: DESIGN.md 12.8"),
     "C08": ("exploration",
             "property-based testing (Hypothesis): model partition of fselect's own ungrouped rows, conservation laws "
             "against the ungrouped aggregate query, restriction metamorphic relation (`where key = value`), "
@@ -96,7 +98,7 @@ CHECKS = {
             "re-obtained by restricting the ungrouped query, and ORDER BY over a selected key or integer aggregate.",
             "Group order without ORDER BY, ORDER BY on unselected or non-integer columns and restriction on empty "
             "key values are not asserted.",
-            "DESIGN.md 4 C08"),
+            "DESIGN.md 4 C08; later additions: DESIGN.md 12.8"),
     "C09": ("exploration",
             "property-based testing (Hypothesis): round-trip / differential decoding of json, csv, html, tabs, lines "
             "output against the NUL-separated `into list` output of the same query",
@@ -106,7 +108,7 @@ CHECKS = {
             "ordered path, multiset elsewhere).",
             "Python's json/csv/html modules are the reference decoders; JSON member order, CSV terminator and "
             "colours are don't-care; tabs/lines only when no value contains the separator.",
-            "DESIGN.md 4 C09"),
+            "DESIGN.md 4 C09; later additions: DESIGN.md 12.8"),
     "C12": ("exploration",
             "property-based testing (Hypothesis): generated names over a metacharacter alphabet x derived patterns, "
             "differential against a direct recursive wildcard matcher / exact comparison / Python re; metamorphic "
@@ -115,7 +117,7 @@ CHECKS = {
             "with a reference that never translates to regex; negative operators must be exact complements; the same "
             "pattern text under two operator families in one query must behave as each family alone.",
             "ASCII names; `=` without wildcard is exact; Python re and Rust regex agree on the small regex subset used.",
-            "DESIGN.md 4 C12"),
+            "DESIGN.md 4 C12; later additions: DESIGN.md 12.8"),
     "C13": ("exploration",
             "property-based testing (Hypothesis): generated literals x time zones x spellings against an interval "
             "reference, algebraic laws (trichotomy, unions, complement) on the binary's own answers, relative literals "
@@ -125,7 +127,7 @@ CHECKS = {
             "must partition the files, and `modified` must print local time. today/yesterday/signed offsets are "
             "checked with the process clock pinned to chosen local days (incl. DST days, midnight, 23:59:59).",
             "zoneinfo/tzdata is the local-time reference; === / !== only at second precision; English dates excluded.",
-            "DESIGN.md 4 C13"),
+            "DESIGN.md 4 C13; later additions: DESIGN.md 12.8"),
     "C14": ("exploration",
             "exhaustive enumeration of the unit table (all suffixes x letter cases x numbers x operators) plus "
             "property-based testing (Hypothesis) of the format specifier grammar with label/spacing/decimals "
@@ -136,7 +138,7 @@ CHECKS = {
             "size, parse-back within half a unit of the last digit; fsize with default_file_size_format equals "
             "format_size with the same specifier.",
             "Rounding mode, automatic unit choice, units p/e and undocumented flag/unit combinations are don't-care.",
-            "DESIGN.md 4 C14"),
+            "DESIGN.md 4 C14; later additions: DESIGN.md 12.8"),
     "C16": ("exploration",
             "property-based testing (Hypothesis): typed argument generators per function, differential against a Python "
             "reference per documented function, composition through the reference, base64 round-trip law",
@@ -145,7 +147,7 @@ CHECKS = {
             "needles, month/year-end dates) are compared cell by cell with the reference; numeric results to 1e-12.",
             "Python's str/base64/math/datetime are the reference; unasserted corners (BIN of negatives, SUBSTR 0/out of "
             "range, FORMAT_TIME wording) are don't-care with a weaker substring/seconds predicate.",
-            "DESIGN.md 4 C16"),
+            "DESIGN.md 4 C16; later additions: DESIGN.md 12.8"),
     "C04": ("exploration",
             "exhaustive enumeration (4096 permission values on disk and x 7 types as zip modes; 41 capabilities x 6 "
             "flag sets; every extension list overridden) plus property-based testing (Hypothesis) of metadata trees "
@@ -157,7 +159,7 @@ CHECKS = {
             "contents at buffer boundaries.",
             "Python's os/stat/hashlib/pwd/grp and getcap are trusted; heuristic columns (mime, is_text) and "
             "created/accessed/device are not asserted.",
-            "DESIGN.md 4 C04"),
+            "DESIGN.md 4 C04; later additions: DESIGN.md 12.8"),
     "C17": ("fault_enumeration",
             "fault injection over generated trees (Hypothesis): every single-directory permission fault position, file "
             "read faults, dangling links, run as uid 65534, differential against the fault-free control run; enumerated "
@@ -169,7 +171,7 @@ CHECKS = {
             "closes after exactly K bytes (or before exec): the child must end by itself with status 0/1, no panic.",
             "Faults are permission faults (chmod 000) seen by an unprivileged process; exit status for file-only "
             "faults may be 0 or 1; message wording is free.",
-            "DESIGN.md 4 C17"),
+            "DESIGN.md 4 C17; later additions: DESIGN.md 12.8"),
     "C18": ("exploration",
             "property-based testing (Hypothesis): generated link graphs (relative/absolute, cycles, chains, outside "
             "targets) in a chroot jail, differential against an independent closure model over real directories; "
@@ -180,7 +182,7 @@ CHECKS = {
             "self-referential; without the option the rows equal the plain walk.",
             "Displayed path spelling, status with dangling/looping links and depth windows under `symlinks` are "
             "don't-care; the jail bounds any mis-resolution.",
-            "DESIGN.md 4 C18"),
+            "DESIGN.md 4 C18; later additions: DESIGN.md 12.8"),
     "C19": ("exploration",
             "property-based testing (Hypothesis): generated trees with zip archives, differential against (same query "
             "without `archives`) + Python zipfile member model; top-N metamorphic relation; exhaustive truncation and "
@@ -191,7 +193,7 @@ CHECKS = {
             "empty, directory-named and unreadable archives never crash, hang, or cost other rows.",
             "Python's zipfile is the reference reader; member rows of damaged archives are only required for "
             "truncations that zipfile still reads identically; unavailable columns are not asserted.",
-            "DESIGN.md 4 C19"),
+            "DESIGN.md 4 C19; later additions: DESIGN.md 12.8"),
     "C20": ("exploration",
             "property-based testing (Hypothesis): generated trees x ignore files x root spellings x switch sources; "
             "differential against `git check-ignore` (git) and reference matchers written from the tools' "
@@ -202,7 +204,7 @@ CHECKS = {
             "sub-directories, cwd below the repository root; option, alias, configuration default, override.",
             "git itself is the git oracle; the hg/docker references are a reading of their documentation for the "
             "generated pattern subset; one open known finding (libgit2 negation heuristic) is matched by signature.",
-            "DESIGN.md 4 C20"),
+            "DESIGN.md 4 C20; later additions: DESIGN.md 12.8"),
     "C11": ("exploration",
             "property-based testing (Hypothesis) with a metamorphic oracle on the parsed query (dbg! output under "
             "`debug = true`), rows and status; exhaustive one-at-a-time enumeration of the documented alias tables",
@@ -212,7 +214,7 @@ CHECKS = {
             "canonical one-argument rendering; every alias in the documentation's tables is substituted one at a time.",
             "The parsed query is read from the debug output; one open known finding (a root word sharing its shell "
             "word with following tokens) is excluded by construction, counted, and watched by its pinned case.",
-            "DESIGN.md 4 C11"),
+            "DESIGN.md 4 C11; later additions: DESIGN.md 12.8"),
 }
 
 PENDING = {}
